@@ -69,9 +69,12 @@ type ShardSpec struct {
 	HashEqual  bool   `json:"hashEqual"`
 	Push       string `json:"push"` // fail | still | ok
 	Runtime2OK bool   `json:"runtime2OK"`
-	Held       []Held `json:"held"`
-	HeadExtra  int64  `json:"headExtra"`
-	Idle       string `json:"idle"` // expired | fresh  (meaningful when Held is empty)
+	// Status2Fail: a second (or later) status request in the same cycle fails
+	// (the unchanged coordinator asks once; a report once given stays the shard's report)
+	Status2Fail bool   `json:"status2Fail,omitempty"`
+	Held        []Held `json:"held"`
+	HeadExtra   int64  `json:"headExtra"`
+	Idle        string `json:"idle"` // expired | fresh  (meaningful when Held is empty)
 }
 
 // ReplicaSpec is one StatefulSet.
@@ -134,6 +137,7 @@ type fakeShard struct {
 	log     []Req
 	hash    string
 	rtCalls int
+	stCalls int
 }
 
 func healthOf(h string) pscrape.TargetHealth {
@@ -157,7 +161,8 @@ func (f *fakeShard) get(url string, ret interface{}) error {
 	var data interface{}
 	switch {
 	case strings.HasPrefix(path, "/api/v1/shard/targets/status/"):
-		if !f.spec.StatusOK {
+		f.stCalls++
+		if !f.spec.StatusOK || (f.stCalls >= 2 && f.spec.Status2Fail) {
 			return fmt.Errorf("status get failed (scripted)")
 		}
 		m := map[uint64]*target.ScrapeStatus{}
